@@ -1,5 +1,5 @@
 """C08 Wire legality for the emitter's role: reference protocol automaton attached to every execution of the
-two-endpoint scenario sets (mixes of C01, endings of C10, cancellations of C09) plus lease scenarios."""
+two-endpoint scenario sets (mixes of C01, endings of C10, cancellations of C09) plus lease scenarios (SEQ)."""
 from mc.explore import dev_explore, replay_witness
 from mc.props import c01, c09, c10
 from mc.scen2 import Mix, Inter
@@ -14,8 +14,76 @@ ASSUMPTIONS = ['asyncio ready queue FIFO', 'both peers are the real library (the
 BUDGET_S = {'quick': 300, 'thorough': 3600}
 
 
+def lease_sequences(depth):
+    """Lease-honouring requester: requests, request(n) and cancel issued before / after LEASE arrives."""
+    syms = [('L', 1), ('L', 2), ('R', 'stream'), ('R', 'channel'), ('R', 'rr'), ('N',), ('X',)]
+    out = []
+
+    def rec(seq):
+        if any(x[0] == 'R' for x in seq):
+            out.append(tuple(seq))
+        if len(seq) >= depth:
+            return
+        for sy in syms:
+            if sy[0] in ('N', 'X') and not any(x[0] == 'R' and x[1] != 'rr' for x in seq):
+                continue
+            rec(seq + [sy])
+
+    rec([])
+    return out
+
+
+def run_lease(unit, part):
+    from mc import monitors, refwire as R
+    from mc.app import RecSubscriber, RecPublisher, P, watch_future
+    from mc.solo import Solo
+    for seq in lease_sequences(unit['depth']):
+        if seq[0] != tuple(unit['first']):
+            continue
+        s = Solo('client', unit['flavour'], honor_lease=True, fragment_size_bytes=unit['fs'])
+        try:
+            subs = []
+            for i, sy in enumerate(seq):
+                if sy[0] == 'L':
+                    s.peer(R.enc_lease(60000, sy[1]))
+                elif sy[0] == 'R':
+                    body = b'%02d' % i + (b'x' * 120 if unit['fs'] else b'')
+                    if sy[1] == 'rr':
+                        s.sock.request_response(P(body))
+                    else:
+                        sub = RecSubscriber(s.w, s.ep, 'sub%d' % i)
+                        subs.append(sub)
+                        if sy[1] == 'stream':
+                            s.sock.request_stream(P(body)).initial_request_n(1).subscribe(sub)
+                        else:
+                            s.sock.request_channel(P(body), RecPublisher(s.w, s.ep, 'pub%d' % i)).initial_request_n(1).subscribe(sub)
+                elif sy[0] == 'N':
+                    subs[-1].subscription.request(2)
+                else:
+                    subs[-1].subscription.cancel()
+                s.settle()
+            s.peer(R.enc_lease(60000, 50))
+            s.settle()
+            v = monitors.wire_legality(s.log, s.ep, 'client')
+            part.evaluations += 1
+            part.traces += 1
+            part.transitions += len(seq) + 1
+            part.state(('lease', seq, tuple((f.type, f.sid) for f in s.sent())))
+            part.outcome(tuple((f.type, f.sid) for f in s.sent()))
+            part.nontriv(('lease', seq))
+            for rule, sig, detail in v:
+                part.violate(rule, sig + ' | lease-queued', detail + ' seq=%s' % (seq,),
+                             {'kind': 'lease', 'flavour': unit['flavour'], 'fs': unit['fs'], 'seq': [list(x) for x in seq]})
+        finally:
+            s.teardown()
+
+
 def make_units(tier):
     units = []
+    for flavour, fs in (('tcp', None), ('msg', 64)):
+        for first in (('L', 1), ('L', 2), ('R', 'stream'), ('R', 'channel'), ('R', 'rr')):
+            units.append({'src': 'lease', 'flavour': flavour, 'fs': fs, 'first': list(first), 'depth': 4 if tier == 'quick' else 5,
+                          'bound': 0, 'name': 'lease', 'shard': [0, 1]})
     for u in c01.make_units(tier):
         if tier == 'quick' and u['bound'] > 1:
             if u['shard'][0] != 0:
@@ -42,6 +110,8 @@ def scenario_of(unit):
 
 
 def run_unit(unit, part):
+    if unit.get('src') == 'lease':
+        return run_lease(unit, part)
     dev_explore(scenario_of(unit), unit['bound'], part, shard=tuple(unit['shard']), det_every=200)
 
 
@@ -51,4 +121,11 @@ def scenario_from(name, params):
 
 def replay(rec):
     w = rec['witness']
+    if w.get('kind') == 'lease':
+        from mc.runner import Partial
+        p = Partial()
+        run_lease({'flavour': w['flavour'], 'fs': w['fs'], 'first': w['seq'][0], 'depth': len(w['seq'])}, p)
+        for v in p.violations.values():
+            print(v.rule, '|', v.detail[:300])
+        return rec['signature'] in p.violations
     return bool(replay_witness(scenario_from(w['scenario'], w['params']), w))
